@@ -6,8 +6,11 @@
 package interp
 
 import (
+	"context"
 	"io"
 	"os"
+	"sync"
+	"time"
 
 	"golang.org/x/term"
 )
@@ -60,4 +63,51 @@ func stdinTerminal(stdin stdinFile) (int, bool) {
 	}
 	fd := int(stdin.Fd())
 	return fd, term.IsTerminal(fd)
+}
+
+// blockedReads tracks, per file, the reads which asked to be unblocked on
+// cancellation. Background jobs and pipelines share their parent's stdin,
+// and a read deadline belongs to the file rather than to each read,
+// so an expired deadline is only cleared once the last such read is over.
+// Clearing it earlier would leave the other reads blocked forever.
+var blockedReads = struct {
+	sync.Mutex
+	active  map[*os.File]int
+	expired map[*os.File]bool
+}{
+	active:  make(map[*os.File]int),
+	expired: make(map[*os.File]bool),
+}
+
+// unblockReadsOnCancel makes reads from f fail as soon as ctx is cancelled,
+// until the returned function is called.
+func unblockReadsOnCancel(ctx context.Context, f *os.File) (done func()) {
+	blockedReads.Lock()
+	blockedReads.active[f]++
+	blockedReads.Unlock()
+	stopc := make(chan struct{})
+	stop := context.AfterFunc(ctx, func() {
+		blockedReads.Lock()
+		blockedReads.expired[f] = true
+		f.SetReadDeadline(time.Now())
+		blockedReads.Unlock()
+		close(stopc)
+	})
+	return func() {
+		if !stop() {
+			// The AfterFunc was started; wait for it to complete.
+			<-stopc
+		}
+		blockedReads.Lock()
+		defer blockedReads.Unlock()
+		blockedReads.active[f]--
+		if blockedReads.active[f] > 0 {
+			return
+		}
+		delete(blockedReads.active, f)
+		if blockedReads.expired[f] {
+			delete(blockedReads.expired, f)
+			f.SetReadDeadline(time.Time{})
+		}
+	}
 }
